@@ -9,6 +9,7 @@ import BV.Drive.Multi
 import BV.Drive.Hasher
 import BV.Drive.Recoder
 import BV.Drive.Dict
+import BV.Drive.Stream
 
 /-- line protocol: `<engine> <args…>` in, one canonical line out -/
 def dispatch (line : String) : String :=
@@ -25,6 +26,7 @@ def dispatch (line : String) : String :=
   | "recoder" :: rest => BV.Drive.Recoder.handle rest
   | "dict" :: rest => BV.Drive.Dict.handle rest
   | "ledger" :: rest => BV.Drive.Ledger.handle rest
+  | "stream" :: rest => BV.Drive.Stream.handle rest
   | _ => "bad-engine"
 
 partial def loop (h : IO.FS.Stream) (out : IO.FS.Stream) : IO Unit := do
